@@ -6,6 +6,8 @@ reg(Prop('C12', [
     Stream('c12.cfi', 12000, 1000000, 'oracle', timeout=900),
     Stream('c12.line', 8000, 500000, 'oracle', timeout=900),
     Stream('c12.vliw', 2000, 100000, 'oracle', timeout=900),
+    Stream('c12.line5', 1, 1, 'oracle', timeout=900,
+           exhaustive='versions 2..5 x DWARF32/64 x address size 4/8 x both byte orders x every subset of {timestamp,size,MD5,source} (v5) x 1..4 files'),
     Stream('c12.arith', 5000, 500000, 'spec', exhaustive='2^k-1, 2^k, 2^k+1 for k in {0,7,8,15,16,30,31,32,33,62,63} for offsets, factored offsets x factors, alignment factors, advance accumulation'),
     # the converter models against the real converters (the converted write-side objects are compared)
     Stream('c12.cficonv', 30000, 1000000, 'model', timeout=900),
